@@ -74,11 +74,13 @@ C01_Table(r, stopped) ==
          (CASE p \in {"CONNECT", "ACTIVE"} -> r.st = "CONNECT" /\ r.att = 1 /\ r.out = <<>>
             [] p \in Session -> IsErr(r, 5, -1)
             [] OTHER -> Ignored(r))
-     \* a hold/keepalive timer left over from an earlier session may expire in Connect/Active: RFC 4271 8.2.2
-     \* (Connect state, "any other event") lets the agent drop everything and go to Idle; ignoring is as good
-     [] c = "T_HOLD" -> IF p \in Session THEN IsErr(r, 4, 0) ELSE (Ignored(r) \/ (r.st = "IDLE" /\ r.out = <<>> /\ r.att = 0))
-     [] c = "T_KA" -> IF p \in Up THEN (r.st = p /\ Outs(r) = <<<<"KEEPALIVE", 0, 0>>>> /\ r.out[1].c = r.ptr /\ NoClose(r) /\ r.att = 0)
-                      ELSE (Ignored(r) \/ (r.st = "IDLE" /\ r.out = <<>> /\ r.att = 0))
+     \* hold and keepalive timers belong to a session: they run in OpenSent (hold) and OpenConfirm / Established only
+     \* (RFC 4271 leaves the large hold timer running when OpenSent falls back to Active on a TCP failure; its expiry
+     \*  in Idle is ignored and in Connect / Active is an "any other event": Idle.  The keepalive timer has no such path.)
+     [] c = "T_HOLD" -> IF p \in Session THEN IsErr(r, 4, 0)
+                        ELSE IF p = "IDLE" THEN Ignored(r)
+                        ELSE Ignored(r) \/ (r.st = "IDLE" /\ Outs(r) = <<>>)
+     [] c = "T_KA" -> p \in Up /\ r.st = p /\ Outs(r) = <<<<"KEEPALIVE", 0, 0>>>> /\ r.out[1].c = r.ptr /\ NoClose(r) /\ r.att = 0
      [] c = "T_IDLE" -> IF p = "IDLE" /\ ~stopped THEN (r.plive = 0 => (r.st = "CONNECT" /\ r.att = 1 /\ r.out = <<>>))
                         ELSE Ignored(r)
      [] c \in PeerMsg /\ ~Live(r) ->
@@ -211,6 +213,11 @@ C16_Fail(r) ==       \* a send reported as failed wrote nothing
 C16_ValidSend(r) ==  \* a well-formed send request in Established is carried out
    (r.cls = "REST" /\ r.rq.cls = "send" /\ r.rq.valid /\ r.rest.cred = "good" /\ r.rest.status # 405 /\ r.pst = "ESTABLISHED") => r.rest.ok = 1
 
+\* cooperative continuation (the harness marks its start with a COOP line): Established within one idle-hold period plus
+\* one connection cycle (1 tick of slack), and Established on every later line
+C02_Recovers(mon, r) ==
+   (mon.coop0 >= 0 /\ r.cls # "COOP" /\ r.now - mon.coop0 > mon.cfg.idle + 1) => r.st = "ESTABLISHED"
+
 (***************************** C05: OPEN contents **************************)
 \* acceptance policy: acc = 1: the injected OPEN must be accepted (version 4, AS = remote AS - the 4-octet value when that
 \* capability is present -, hold time not 1 or 2); acc = 2: it must be rejected with OPEN Message Error subcode esub
@@ -235,8 +242,8 @@ C05_Open(mon, r) ==
 ------------------------------------------------------------------------------
 NoSess == [conn |-> 0, sentOpen |-> FALSE, gotOpen |-> FALSE, sentKa |-> FALSE, H |-> 0, start |-> 0, heard |-> 0, kasent |-> 0]
 \* stopped: "no" | "yes" (manual stop in force) | "breached" (a violation of C13 was already reported for this stop)
-Mon0 == [cfg |-> [hold |-> 0, tnum |-> 1, tden |-> 1, las_hi |-> 0, las_lo |-> 0, caps |-> <<>>], stopped |-> "no",
-         sess |-> NoSess, bgpid |-> <<>>, statok |-> TRUE, opencaps |-> <<-1>>]
+Mon0 == [cfg |-> [hold |-> 0, tnum |-> 1, tden |-> 1, las_hi |-> 0, las_lo |-> 0, caps |-> <<>>, idle |-> 0], stopped |-> "no",
+         sess |-> NoSess, bgpid |-> <<>>, statok |-> TRUE, opencaps |-> <<-1>>, coop0 |-> -1]
 
 Min(a, b) == IF a < b THEN a ELSE b
 \* monitor update after a line (uses observable fields only)
@@ -253,10 +260,11 @@ NextSess(mon, r) ==
    IN s4
 NextMon(mon, r) ==
    IF r.k = "cfg"
-   THEN [Mon0 EXCEPT !.cfg = [hold |-> r.hold, tnum |-> r.tnum, tden |-> r.tden, las_hi |-> r.las_hi, las_lo |-> r.las_lo, caps |-> r.caps]]
+   THEN [Mon0 EXCEPT !.cfg = [hold |-> r.hold, tnum |-> r.tnum, tden |-> r.tden, las_hi |-> r.las_hi, las_lo |-> r.las_lo, caps |-> r.caps, idle |-> r.idle]]
    ELSE [mon EXCEPT !.stopped = IF r.cls = "STOP" THEN "yes" ELSE IF r.cls = "START" THEN "no"
                                  ELSE IF @ = "yes" /\ ~C13_Silent(r, TRUE) THEN "breached" ELSE @,
                     !.statok = StatOk(r),
+                    !.coop0 = IF r.cls = "COOP" THEN r.now ELSE @,
                     !.sess = NextSess(mon, r),
                     !.opencaps = IF @ = <<-1>> /\ (\E k \in 1..Len(r.out) : r.out[k].type = "OPEN" /\ r.out[k].wf)
                                  THEN r.out[CHOOSE k \in 1..Len(r.out) : r.out[k].type = "OPEN" /\ r.out[k].wf].caps ELSE @,
@@ -289,6 +297,8 @@ Check(mon, r) ==
    /\ Chk("C05", r, "C05.asmode", C05_AsMode(r), r.rep)
    /\ Chk("C10", r, "C10.after", C10_After(r, stp \/ r.cls = "STOP"), <<>>)
    /\ Chk("C02", r, "C02.pending", C02_Pending(r, stp \/ r.cls = "STOP"), <<>>)
+   /\ Chk("C02", r, "C02.recovers", C02_Recovers(mon, r), <<mon.coop0, r.now>>)
+   /\ Chk("C02", r, "C02.sameopen", mon.coop0 >= 0 => C05_Open(mon, r), <<>>)
    /\ Chk("C05", r, "C05.open", C05_Open(mon, r), <<>>)
    /\ Chk("C16", r, "C16.auth", C16_Auth(r), <<r.rest.rule, r.rest.method, r.rest.cred, r.rest.status>>)
    /\ Chk("C16", r, "C16.method", C16_Method(r), <<r.rest.rule, r.rest.method>>)
